@@ -1,0 +1,136 @@
+//go:build verif
+
+package keyed
+
+// Contracts for GoVC (see /verif/DESIGN.md). Comment-only: compiles to nothing.
+//
+// Keyed is a monitor: mtx guards ctx, the routines map and the mutable fields of every runningRoutine record
+// that belongs to it (record.k names the Keyed); ctorCb, exitedCbs, releaseDelay, backoffFactory and a
+// record's k, key, routine, data, retryBo are immutable after construction.
+// Key set (C06): K1 ties map entries to their records; the postconditions of SetKey / RemoveKey / SyncKeys /
+// GetKey describe the key set and the pending-removal timers.
+// One live routine per key (C07): as in package routine, an instance is identified by its exitedCh (made in
+// start); pred(ch) is the channel it waits for, xrun(ch) the goroutine that runs it.
+//   E1  an instance's exitedCh is closed only after the channel it waited for was closed
+//   callback 1 in execute: the managed function is entered only after the predecessor channel was closed
+//   SetKey.keepretry: a non-restarting SetKey leaves a pending retry timer alone
+//
+//@ ghostmap xowner: ref -> ref once
+//@ ghostmap xrun: ref -> ref owned
+//@ ghostmap pred: ref -> ref by xrun
+//
+//@ object Keyed
+//@   props C06 C07 C13
+//@   lock mtx
+//@   guarded ctx, routines, runningRoutine.ctx, runningRoutine.ctxCancel, runningRoutine.exitedCh, runningRoutine.err, runningRoutine.success, runningRoutine.exited, runningRoutine.deferRemove, runningRoutine.deferRetry
+//@   immutable ctorCb, exitedCbs, releaseDelay, backoffFactory, runningRoutine.k, runningRoutine.key, runningRoutine.routine, runningRoutine.data, runningRoutine.retryBo
+//@   records runningRoutine via k
+//@   inv K0[C06]: this.routines != nil && this.ctorCb != nil
+//@   inv K1[C06]: forall key: any {this.routines[key]} :: in(this.routines, key) ==> this.routines[key] != nil && this.routines[key].k == this && this.routines[key].key == key
+//
+//@ ginv E0: forall ch: ref {xowner(ch)} :: xowner(ch) != nil ==> ch != nil && allocated(ch) && madein(ch, "(*runningRoutine).start")
+//@ ginv E1: forall ch: ref {xowner(ch)} :: xowner(ch) != nil && closed(ch) ==> xrun(ch) == nil && (pred(ch) != nil ==> closed(pred(ch)))
+//@ ginv E2: forall ch: ref {xrun(ch)} :: xrun(ch) != nil ==> xowner(ch) != nil && !closed(ch)
+//
+//@ func newRunningRoutine
+//@   props C06 C07
+//@   inline
+//
+//@ func (*runningRoutine).start
+//@   props C07 C13
+//@   inline
+//@   opt holds = k.mtx
+//@   opt frame = skip
+//@   requires r != nil && r.k != nil && ctx != nil
+//@   ghost go 1: xowner(exitedCh) := r.k
+//@   ghost go 1: xrun(exitedCh) := me
+//@   ghost go 1: pred(exitedCh) := waitCh
+//@   ghost go 1: xrun(exitedCh) := child
+//
+//@ func (*runningRoutine).execute
+//@   props C07 C13
+//@   opt frame = skip
+//@   opt inherits = xrun
+//@   requires r != nil && r.k != nil && ctx != nil && cancel != nil && r.routine != nil
+//@   requires mine: exitedCh != nil && xrun(exitedCh) == me && xowner(exitedCh) == r.k && pred(exitedCh) == waitCh
+//@   assert select 1: selects(waitCh) && selects(done(ctx))
+//@   assert callback 1: handover: waitCh == nil || closed(waitCh)
+//@   ghost close 1: xrun(exitedCh) := nil
+//@   loop 1 invariant idx: -1 <= i && i < len(r.k.exitedCbs)
+//
+// The retry timer callback.
+//@ func (*runningRoutine).execute$1
+//@   props C07 C13
+//@   opt frame = skip
+//@   requires r != nil && r.k != nil
+//
+//@ closure (*runningRoutine).remove
+//@   props C06 C07
+//
+//@ closure (*runningRoutine).remove$1
+//@   props C06 C07
+//
+// The delayed-removal timer callback.
+//@ func (*runningRoutine).remove$2
+//@   props C06 C07 C13
+//@   opt frame = skip
+//@   requires r != nil && r.k != nil
+//
+//@ func (*Keyed).SetContext
+//@   props C07 C13
+//@   opt frame = skip
+//@   requires k != nil
+//
+//@ func (*Keyed).setContextLocked
+//@   props C07 C13
+//@   opt holds = mtx
+//@   opt frame = skip
+//@   requires k != nil
+//@   loop 1 invariant inv: ginvs() && k.routines != nil && k.ctorCb != nil
+//@   loop 1 invariant entries: forall key: any {k.routines[key]} :: in(k.routines, key) ==> k.routines[key] != nil && k.routines[key].k == k && k.routines[key].key == key
+//
+//@ func (*Keyed).ClearContext
+//@   props C07
+//@   opt frame = skip
+//@   requires k != nil
+//
+//@ func (*Keyed).SetKey
+//@   props C06 C07 C13
+//@   opt frame = skip
+//@   requires k != nil
+//@   ensures present: result1 == old(in(k.routines, key)) && in(k.routines, key) && k.routines[key].deferRemove == nil
+//@   ensures keepretry: !start && old(in(k.routines, key)) ==> k.routines[key].deferRetry == old(k.routines[key].deferRetry)
+//
+//@ func (*Keyed).RemoveKey
+//@   props C06 C07 C13
+//@   opt frame = skip
+//@   requires k != nil
+//
+//@ func (*Keyed).GetKey
+//@   props C06 C13
+//@   opt frame = skip
+//@   requires k != nil
+//
+//@ func (*Keyed).RestartRoutine
+//@   props C07 C13
+//@   opt frame = skip
+//@   requires k != nil
+//
+//@ func (*Keyed).restartRoutineLocked
+//@   props C07 C13
+//@   opt holds = mtx
+//@   opt frame = skip
+//@   requires k != nil
+//@   loop 1 invariant inv: true
+//
+//@ func (*Keyed).ResetRoutine
+//@   props C07 C13
+//@   opt frame = skip
+//@   requires k != nil
+//
+//@ func (*Keyed).resetRoutineLocked
+//@   props C07 C13
+//@   opt holds = mtx
+//@   opt frame = skip
+//@   requires k != nil
+//@   loop 1 invariant inv: true
